@@ -167,6 +167,10 @@ pub fn c02_fits(c: &TextCase) -> Outcome {
             let para = &c.text[pa..pb];
             if let Some(bps) = soft_break_positions(para, o.sep, o.spl) {
                 if let Some(bp) = bps.iter().find(|&&bp| pa + bp > s.a && pa + bp < s.b) {
+                    if dw(body) == 0 && !s.hyphen {
+                        // the whole overflow is the indent's: recorded finding KF1 (no arrangement could be narrower)
+                        return Err(format!("[class=KF1-indent-wider-than-width-zero-width-rest] line {} {:?} is {} columns wide (> {}): its indent alone exceeds the width and the zero-width rest {:?} still contains a break opportunity (byte {} of its paragraph); lines={:?}", k, line, w, o.width, body, bp, lines));
+                    }
                     return Err(format!("line {} {:?} is {} columns wide (> {}) but could have been broken at byte {} of its paragraph; lines={:?}", k, line, w, o.width, bp, lines));
                 }
             }
@@ -452,4 +456,90 @@ pub fn c17_inplace(c: &StrCase) -> Outcome {
         return Err(format!("fill_inplace gives lines {:?}, wrap with the documented options gives {:?}", got, want));
     }
     Ok(changed >= 1)
+}
+
+
+/// C03 (text level): with optimal-fit and no force-breaking, each paragraph's lines are a minimum-cost arrangement
+/// of that paragraph's fragments (separator + splitter output) for the widths the lines are actually rendered with.
+#[cfg(all(feature = "full", fuzzing))]
+pub fn c03_text(c: &TextCase) -> Outcome {
+    use crate::props_frag::{arrangement_cost, Frag, DEFAULT_PEN};
+    let o = &c.opts;
+    if o.algo != Algo::OptimalFit || o.break_words || c.text.contains('\n') || c.text.contains('\r') || !well_formed(&c.text) {
+        return Ok(false);
+    }
+    let opt = o.options();
+    let mut nontrivial = false;
+    for prior in [0usize, 1] {
+        let mut lines: Vec<Cow<'_, str>> = (0..prior).map(|_| Cow::from("x")).collect();
+        textwrap::fuzzing::wrap_single_line_slow_path(&c.text, &opt, &mut lines);
+        let out = &lines[prior..];
+        let words: Vec<textwrap::core::Word<'_>> =
+            textwrap::word_splitters::split_words(opt.word_separator.find_words(&c.text), &opt.word_splitter).collect();
+        if words.is_empty() || words.len() > 12 {
+            continue;
+        }
+        let frags: Vec<Frag> = words.iter().map(|w| Frag { w: dw(w.word) as f64, ws: w.whitespace.len() as f64, p: w.penalty.len() as f64 }).collect();
+        // side condition of the property
+        if (0..frags.len() - 1).any(|t| frags[t].p > frags[t + 1].w) {
+            continue;
+        }
+        let ind0 = if prior == 0 { o.initial } else { o.subsequent };
+        let widths = [o.width.saturating_sub(dw(ind0)) as f64, o.width.saturating_sub(dw(o.subsequent)) as f64];
+        // recover the arrangement from the output lines
+        let mut breaks = Vec::new();
+        let mut pos = 0usize;
+        for (k, l) in out.iter().enumerate() {
+            let ind = if prior + k == 0 { o.initial } else { o.subsequent };
+            let rest = match l.strip_prefix(ind) {
+                Some(r) => r,
+                None => return Err(format!("line {:?} lacks its indent", l)),
+            };
+            breaks.push(pos);
+            let mut acc = String::new();
+            let mut found = false;
+            for t in pos..words.len() {
+                let mut cand = acc.clone();
+                cand.push_str(words[t].word);
+                cand.push_str(words[t].penalty);
+                if cand == rest {
+                    pos = t + 1;
+                    found = true;
+                    break;
+                }
+                acc.push_str(words[t].word);
+                acc.push_str(words[t].whitespace);
+            }
+            if !found {
+                return Err(format!("line {:?} is not a run of the paragraph's fragments {:?}", l, words));
+            }
+        }
+        if pos != words.len() {
+            return Err(format!("lines {:?} do not use all fragments {:?}", out, words));
+        }
+        let got = arrangement_cost(&frags, &widths, &DEFAULT_PEN, &breaks);
+        let n = frags.len();
+        let mut best = f64::INFINITY;
+        let mut bb = vec![];
+        for mask in 0u32..(1u32 << (n - 1)) {
+            let mut b = vec![0usize];
+            for t in 1..n {
+                if mask & (1 << (t - 1)) != 0 {
+                    b.push(t);
+                }
+            }
+            let cst = arrangement_cost(&frags, &widths, &DEFAULT_PEN, &b);
+            if cst < best {
+                best = cst;
+                bb = b;
+            }
+        }
+        if got != best {
+            return Err(format!("with {} earlier line(s): wrap's arrangement {:?} (lines {:?}) costs {} against line widths {:?}, but {:?} costs {}", prior, breaks, out, got, widths, bb, best));
+        }
+        if breaks.len() >= 2 {
+            nontrivial = true;
+        }
+    }
+    Ok(nontrivial)
 }
